@@ -9,6 +9,12 @@
 // schemes. Each input is ingested with ingest.BuildWorldFromOSM and the world's
 // canonical dump is compared with the dump of a reference world over the
 // features demanded by an independent coding of the rules (osmkit.Expect).
+//
+// A second part of the space (mpseq.go) enumerates the member sequences of a
+// multipolygon relation over three closed ways: way members with the ring roles
+// and non-way members (node, relation) with every role of the role menu, at
+// every position of the sequence. The same oracle applies: the polygons follow
+// the way members; members that are not ways have no influence on them.
 package main
 
 import (
@@ -51,7 +57,7 @@ func main() {
 	nq := wk.NamedQueries(qs)
 	kit.Main(&kit.Check{
 		ID: "C29", Level: "exploration",
-		Rule: "every choice of one variant per slot of osmkit.Menu (n2 plain/searchable tag/missing/plain tag; n1, n8 tagged or not; way A closed ccw/cw, open, degenerate, absent; way B joining, inner ring ccw/cw, missing node, open; way C; multipolygon relation M with outer/inner/empty roles, node and missing members; plain relations P and Q over nodes, open ways, closed ways, M, P and missing elements) x ID scheme (way and relation numbers overlapping / disjoint / > 2^32). Non-trivial = at least one way or relation; distinct by the literal input. Oracle: osmkit.Expect (independent coding of the statement's rules and of the documented searchable-key table) -> worldkit reference dump: existence, tags with kinds, E7 points, path references in order, polygons as vertex loops with their path IDs, relation members and roles, referrers, relations/areas by feature, tag searches, EachFeature.",
+		Rule: "every choice of one variant per slot of osmkit.Menu (n2 plain/searchable tag/missing/plain tag; n1, n8 tagged or not; way A closed ccw/cw, open, degenerate, absent; way B joining, inner ring ccw/cw, missing node, open; way C; multipolygon relation M with outer/inner/empty roles, node and missing members; plain relations P and Q over nodes, open ways, closed ways, M, P and missing elements) x ID scheme (way and relation numbers overlapping / disjoint / > 2^32). Non-trivial = at least one way or relation; distinct by the literal input. Oracle: osmkit.Expect (independent coding of the statement's rules and of the documented searchable-key table) -> worldkit reference dump: existence, tags with kinds, E7 points, path references in order, polygons as vertex loops with their path IDs, relation members and roles, referrers, relations/areas by feature, tag searches, EachFeature. Second part, multipolygon member sequences: over a fixed input (nodes n1..n11, closed counter-clockwise ways A=1 square, B=2 triangle inside A, C=3 triangle beside A, plain relation 2) the members of multipolygon relation 1 are every sequence over the member alphabet {way 1,2,3} x role {outer, \"\", inner} (each way at most once) + {node n1, relation 2 [thorough: also an absent node and an absent relation]} x role {\"\", outer, inner, label} (repetition allowed) within the stated numbers of way and non-way members, so non-way members of both types and all four roles occur at every position (before the first ring, between an outer ring and its inner rings, between polygons, after the last ring, adjacent to each other); under the overlap ID scheme node 1 / relation 2 carry the numbers of ways A / B. Ordered by sequence length, then number of non-way members. Non-trivial = the rules define the area (all way members closed and present, first ring not inner); distinct by the literal input. Oracle for the area: a way member with role outer or no role opens a polygon, an inner way member adds a loop to the polygon of the preceding outer, members that are not ways have no influence on the polygons whatever their role and position (osmkit.Expect skips them before looking at the role); all other observations as in the first part.",
 		Assumptions: []string{
 			"features the build is documented to delete as invalid (BuildOptions.FailInvalidFeatures=false: paths with a missing node or < 2 points, invalid loops, areas over them) are expected absent; clockwise closed ways are expected inverted (BuildOptions.FailClockwisePaths=false); both coded independently in worldkit.ValidSubset",
 			"a multipolygon relation whose way members are not all present closed ways (or that starts with an inner ring) is outside the rules: nothing is demanded of its area and differences naming that area are ignored",
@@ -62,81 +68,159 @@ func main() {
 		WorkerEnv: []string{"GOGC=800", "GOMAXPROCS=2"},
 		Build: func(tier string) (kit.Space, string) {
 			blocks := ok.Blocks(slots, tier)
-			return kit.FuncSpace{N: ok.Total(blocks), F: func(i int64) kit.Result {
-				var r kit.Result
+			menuN := ok.Total(blocks)
+			mp := newMPSpace(tier)
+			return kit.FuncSpace{N: menuN + mp.Len(), F: func(i int64) kit.Result {
+				if i >= menuN {
+					// multipolygon member sequences (mpseq.go)
+					c := mp.Case(i - menuN)
+					ev := evaluation{in: c.Input(), ids: c.Scheme.Name, desc: c.Describe(), sample: (i-menuN)%1009 == 0, mp: &c}
+					return ev.run(qs, nq)
+				}
 				blk, choice := ok.Locate(blocks, i)
 				sch := blk.Scheme
-				in := ok.Expand(slots, choice, sch)
-				var pbf []byte
-				if blk.ViaPBF {
-					// the rules are applied to what the file says (the writer quantises coordinates)
-					var err error
-					if pbf, err = ok.PBF(in); err == nil {
-						in, err = ok.ReadBack(pbf)
-					}
-					if err != nil {
-						r.Violate("harness:pbf", "%v", err)
-						return r
-					}
-				}
-				r.Nontrivial = len(in.Ways)+len(in.Relations) > 0
-				r.Key = in.String()
-				if i%1009 == 0 {
-					r.Sample = map[string]string{"ids": sch.Name, "input": in.String()}
-				}
-				e := ok.Expect(in)
-				var w b6.World
-				var err error
-				if blk.ViaPBF {
-					w, err = ok.BasicFromPBF(pbf, 1)
-				} else {
-					w, err = ok.Basic(in, 1)
-				}
-				if err != nil {
-					r.Violate("build-error", "ids %s %s\ninput: %s\n%v", sch.Name, ok.ChoiceNames(slots, choice), in, err)
-					r.Outcome = "build-error"
-					return r
-				}
-				got := wk.DumpWorld(w, &wk.DumpOptions{IDs: e.Universe, Queries: nq, Skip: []string{"trav:", "colls:"}})
-				want := wk.NewRef(e.Valid).ExpectedDump(e.Universe, qs, true, true)
-				diffs := wk.Diff(got, want, false)
-				// Nothing is demanded of an unconstrained multipolygon area. When the
-				// world does not have it the expected world (without it) is exact;
-				// when it does, every observation naming it is ignored.
-				var present []b6.FeatureID
-				for _, id := range e.Unconstrained {
-					if got["has:"+id.String()] != "false" {
-						present = append(present, id)
-					}
-				}
-				diffs = ignoreUnconstrained(diffs, present)
-				r.Outcome = fmt.Sprintf("ok:%d-features,%d-dropped,%d-unconstrained", bucket(len(e.Valid)), len(e.Dropped), len(e.Unconstrained))
-				r.Count("features", int64(len(e.Valid)))
-				r.Count("relations-with-area-members", int64(areaMembers(e.Valid)))
-				if len(diffs) > 0 {
-					cls := map[string]bool{}
-					for _, d := range diffs {
-						cls[classify(d, got, want)] = true
-					}
-					var names []string
-					for c := range cls {
-						names = append(names, c)
-					}
-					sort.Strings(names)
-					// report the root-cause classes only: member-kind errors explain
-					// the derived referrer / relation-by-feature differences.
-					if hasPrefix(names, "member-kind:") {
-						names = keepPrefix(names, "member-kind:")
-					}
-					for _, c := range names {
-						r.Violate(c, "ids %s %s\ninput: %s\nexpected features: %s\ndropped: %v\n(A = world, B = rules)\n%s", sch.Name, ok.ChoiceNames(slots, choice), in, e.Valid, e.Dropped, strings.Join(diffs, "\n"))
-					}
-					r.Outcome = "diff"
-				}
-				return r
-			}}, fmt.Sprintf("menu inputs of <= 11 nodes, <= 3 ways, <= 3 relations (slots n2, n1+n8, wayA, wayB, wayC, relM, relP, relQ): %s; %d tag queries each", ok.BlocksString(blocks), len(qs))
+				ev := evaluation{in: ok.Expand(slots, choice, sch), ids: sch.Name, desc: ok.ChoiceNames(slots, choice), sample: i%1009 == 0, viaPBF: blk.ViaPBF}
+				return ev.run(qs, nq)
+			}}, fmt.Sprintf("(1) menu inputs of <= 11 nodes, <= 3 ways, <= 3 relations (slots n2, n1+n8, wayA, wayB, wayC, relM, relP, relQ): %s; (2) multipolygon member sequences (nodes n1..n11, closed ways A=1, B=2 inside A, C=3 beside A, multipolygon relation 1, plain relation 2): every sequence, in every interleaving, of distinct way members {1,2,3} x role {outer,\"\",inner} and non-way members {node, relation} x role {\"\",outer,inner,label} (repetition allowed): %s; %d tag queries each", ok.BlocksString(blocks), mp.String(), len(qs))
 		},
 	})
+}
+
+// evaluation is one input checked against the rules.
+type evaluation struct {
+	in     ok.Input
+	ids    string // ID scheme name
+	desc   string // how the input was chosen
+	sample bool
+	viaPBF bool
+	mp     *mpCase // non-nil: a multipolygon member-sequence case
+}
+
+func (ev *evaluation) run(qs []wk.RQ, nq []wk.NamedQuery) kit.Result {
+	var r kit.Result
+	in := ev.in
+	var pbf []byte
+	if ev.viaPBF {
+		// the rules are applied to what the file says (the writer quantises coordinates)
+		var err error
+		if pbf, err = ok.PBF(in); err == nil {
+			in, err = ok.ReadBack(pbf)
+		}
+		if err != nil {
+			r.Violate("harness:pbf", "%v", err)
+			return r
+		}
+	}
+	r.Nontrivial = len(in.Ways)+len(in.Relations) > 0
+	r.Key = in.String()
+	if ev.sample {
+		r.Sample = map[string]string{"ids": ev.ids, "input": in.String()}
+	}
+	e := ok.Expect(in)
+	var w b6.World
+	var err error
+	if ev.viaPBF {
+		w, err = ok.BasicFromPBF(pbf, 1)
+	} else {
+		w, err = ok.Basic(in, 1)
+	}
+	if err != nil {
+		r.Violate("build-error", "ids %s %s\ninput: %s\n%v", ev.ids, ev.desc, in, err)
+		r.Outcome = "build-error"
+		return r
+	}
+	got := wk.DumpWorld(w, &wk.DumpOptions{IDs: e.Universe, Queries: nq, Skip: []string{"trav:", "colls:"}})
+	want := wk.NewRef(e.Valid).ExpectedDump(e.Universe, qs, true, true)
+	diffs := wk.Diff(got, want, false)
+	// Nothing is demanded of an unconstrained multipolygon area. When the
+	// world does not have it the expected world (without it) is exact;
+	// when it does, every observation naming it is ignored.
+	var present []b6.FeatureID
+	for _, id := range e.Unconstrained {
+		if got["has:"+id.String()] != "false" {
+			present = append(present, id)
+		}
+	}
+	diffs = ignoreUnconstrained(diffs, present)
+	r.Outcome = fmt.Sprintf("ok:%d-features,%d-dropped,%d-unconstrained", bucket(len(e.Valid)), len(e.Dropped), len(e.Unconstrained))
+	r.Count("features", int64(len(e.Valid)))
+	r.Count("relations-with-area-members", int64(areaMembers(e.Valid)))
+	if c := ev.mp; c != nil {
+		// the sequence is non-trivial when the rules say what its area is
+		r.Nontrivial = len(e.Unconstrained) == 0
+		r.Outcome = "mp-ok:" + mpShape(e, c)
+		r.Count("mp-sequences", 1)
+		if c.NonWays > 0 {
+			r.Count("mp-sequences-with-non-way-members", 1)
+			if r.Nontrivial {
+				r.Count("mp-constrained-sequences-with-non-way-members", 1)
+			}
+		}
+		if c.Between > 0 && r.Nontrivial {
+			r.Count("mp-constrained-sequences-with-a-non-way-member-between-a-polygon's-rings", 1)
+		}
+	}
+	if len(diffs) > 0 {
+		cls := map[string]bool{}
+		for _, d := range diffs {
+			cls[classify(d, got, want)] = true
+		}
+		var names []string
+		for c := range cls {
+			names = append(names, c)
+		}
+		sort.Strings(names)
+		// report the root-cause classes only: member-kind errors explain
+		// the derived referrer / relation-by-feature differences.
+		if hasPrefix(names, "member-kind:") {
+			names = keepPrefix(names, "member-kind:")
+		}
+		if ev.mp != nil {
+			// likewise a wrong multipolygon area explains the differences in
+			// references, areas-by-feature, searches and iteration that follow.
+			var root []string
+			for _, n := range names {
+				switch n {
+				case "mapping:geometry-or-members:area", "mapping:feature-missing:area", "mapping:feature-unexpected:area", "mapping:tags:area":
+					root = append(root, n)
+				}
+			}
+			if len(root) > 0 {
+				names = root
+			}
+		}
+		for _, c := range names {
+			if ev.mp != nil {
+				// name the member-sequence class the failing input belongs to
+				c = "multipolygon-members:" + ev.mp.InputClass() + ":" + c
+			}
+			r.Violate(c, "ids %s %s\ninput: %s\nexpected features: %s\ndropped: %v\n(A = world, B = rules)\n%s", ev.ids, ev.desc, in, e.Valid, e.Dropped, strings.Join(diffs, "\n"))
+		}
+		r.Outcome = "diff"
+	}
+	return r
+}
+
+// mpShape: what the rules demand of the multipolygon of a member-sequence
+// case, e.g. "2+1-loops" = two polygons of 2 loops and 1 loop.
+func mpShape(e ok.Expectation, c *mpCase) string {
+	if len(e.Unconstrained) > 0 {
+		return "unconstrained"
+	}
+	id := ok.RelAreaID(c.Scheme.R(1))
+	for _, f := range e.AsGiven {
+		if f.ID == id {
+			if len(f.Polys) == 0 {
+				return "no-polygons"
+			}
+			parts := make([]string, len(f.Polys))
+			for i, p := range f.Polys {
+				parts[i] = fmt.Sprint(len(p.Paths))
+			}
+			return strings.Join(parts, "+") + "-loops"
+		}
+	}
+	return "absent"
 }
 
 func bucket(n int) int { return n / 4 * 4 }
